@@ -30,9 +30,14 @@ class DD:
         self.file = runs_to_set(rand_runs(rng, self.top))
         self.mem = self.file | runs_to_set(rand_runs(rng, self.top))
         self.max_mapnr = self.top
+        if idx % 6 == 4:
+            # max_mapnr at the capacity boundary of the two-block bitmap (partial-dump test)
+            self.max_mapnr = rng.choice([PS * 8 - 1, PS * 8, PS * 8 + 1])
+            hi = runs_to_set([(self.max_mapnr - 9, 4), (self.max_mapnr - 3, 3)])
+            self.file |= hi; self.mem |= hi | {self.max_mapnr - 5}
         nsplit = rng.choice([1, 1, 2, 3])
         cuts = sorted(rng.sample(range(1, self.top), nsplit - 1)) if nsplit > 1 else []
-        self.windows = list(zip([0] + cuts, cuts + [self.top]))
+        self.windows = list(zip([0] + cuts, cuts + [max(self.top, self.max_mapnr)]))
         self.paths = []
         for k, (a, b) in enumerate(self.windows):
             p = R.path("c07-%d-%d.dump" % (idx, k))
@@ -73,9 +78,26 @@ class ELF:
             self.segs.append(dict(pfn=p, npages=n, filepages=filepages, voff=0xffff880000000000))
             p += n + rng.choice([1, 1, 2, 3, 9])
         self.file = set(); self.mem = set()
+        if idx % 4 == 3:
+            # byte-granular segments: start and end inside pages, filesz < memsz
+            bs = []
+            for s in self.segs:
+                pa = s["pfn"] * PS + rng.choice([0, 0, 0x800, 0x10, PS - 1])
+                memsz = max(1, s["npages"] * PS - rng.choice([0, 0, 0x800, 1, PS - 1]))
+                filesz = rng.choice([memsz, memsz, max(0, memsz - 0x800), memsz // 2, 0])
+                bs.append(dict(paddr=pa, filesz=filesz, memsz=memsz, voff=s["voff"]))
+            # keep segments disjoint
+            bs.sort(key=lambda b: b["paddr"])
+            self.segs = [b for i, b in enumerate(bs) if i == 0 or bs[i - 1]["paddr"] + bs[i - 1]["memsz"] <= b["paddr"]]
         for s in self.segs:
-            self.mem |= set(range(s["pfn"], s["pfn"] + s["npages"]))
-            self.file |= set(range(s["pfn"], s["pfn"] + s["filepages"]))
+            if "paddr" in s:
+                if s["memsz"]:
+                    self.mem |= set(range(s["paddr"] // PS, (s["paddr"] + s["memsz"] - 1) // PS + 1))
+                if s["filesz"]:
+                    self.file |= set(range(s["paddr"] // PS, (s["paddr"] + s["filesz"] - 1) // PS + 1))
+            else:
+                self.mem |= set(range(s["pfn"], s["pfn"] + s["npages"]))
+                self.file |= set(range(s["pfn"], s["pfn"] + s["filepages"]))
         order = list(self.segs)
         rng.shuffle(order)                      # program headers in any order
         self.paths = [R.path("c07-%d.elf" % idx)]
@@ -84,9 +106,11 @@ class ELF:
     def open_line(self):
         return "open 1 " + self.paths[0]
     def layout_lines(self):
-        return ["elf 12"] + ["seg %d %d %d" % (s["pfn"] * PS, s["filepages"] * PS, s["npages"] * PS) for s in self.segs]
+        return ["elf 12"] + [("seg %d %d %d" % (s["paddr"], s["filesz"], s["memsz"])) if "paddr" in s else
+                             ("seg %d %d %d" % (s["pfn"] * PS, s["filepages"] * PS, s["npages"] * PS)) for s in self.segs]
     def kv_pages(self):
-        return [(s["pfn"] * PS + s["voff"]) % (1 << 64) for s in self.segs if s["filepages"]]
+        return [((s["paddr"] // PS * PS if "paddr" in s else s["pfn"] * PS) + s["voff"]) % (1 << 64) for s in self.segs
+                if s.get("filepages", s.get("filesz"))]
 
 
 def bit(bm, i, msb):
@@ -170,13 +194,20 @@ def run(R):
                 for (a, b) in (rngs if len(rngs) <= 700 else rng.sample(rngs, 700)):
                     q.append(("bits", w, a, b))
                 q.append(("bits", w, 0, top + 200)); q.append(("bits", w, top + 5, top + 70)); q.append(("fset", w, 1 << 40)); q.append(("fclr", w, 1 << 40))
+                hi = getattr(L, "max_mapnr", 0)
+                if hi > top:
+                    for idx in range(hi - 12, hi + 4):
+                        q.append(("fset", w, idx)); q.append(("fclr", w, idx))
+                        q.append(("bits", w, idx, hi + 3)); q.append(("bits", w, hi - 12, idx))
+                    q.append(("fset", w, top)); q.append(("fclr", w, hi - 9))
             return q
         qs = queries()
         # before any read
         for q in rng.sample(qs, min(len(qs), 500)):
             lines.append(" ".join(map(str, q))); meta.append((li, q, "before"))
         # reads in every address space (the history), then everything again
-        for p in range(top):
+        hi = getattr(L, "max_mapnr", 0)
+        for p in list(range(top)) + (list(range(hi - 12, hi + 4)) if hi > top else []):
             lines.append("probe 1 %d %d" % (p * PS, PS)); meta.append((li, ("probe", p), "read"))
         for v in L.kv_pages():
             lines.append("probe 2 %d %d" % (v, PS)); meta.append((li, ("kvprobe", v), "read"))
